@@ -36,7 +36,7 @@ def t_bnode(tag: str) -> tuple:
 
 
 def t_lit(tag: str, kind: str = "plain") -> tuple:
-    lex = sstr(Atom(tag + ".lex", nonempty=None))
+    lex = sstr(Atom(tag + ".lex"))
     if kind == "plain":
         return ("lit", lex, None, None)
     if kind == "lang":
